@@ -20,7 +20,8 @@ CASES = [
     ("once_no_revoke", "Mutants", "reg", C(NSys=3, NOnce=1, OpNames={"bc", "once"}, MaxOps=2, Budget=3, MaxSteps=3, StepKinds={"ops", "gc"}), ["Inv_C15", "Inv_C07", "Inv_C01"]),
     ("replay_newest", "Mutants", "run", C(NSys=2, OpNames={"run", "sysev"}, MaxOps=3, Budget=4, MaxSteps=2), ["Inv_C12", "Inv_C09"]),
     ("replay_once", "Mutants", "run", C(NSys=2, OpNames={"run", "sysev"}, MaxOps=3, Budget=4, MaxSteps=2), ["Inv_C02", "Inv_C09", "Inv_C11"]),
-    ("no_discard", "Mutants", "run", C(NSys=2, OpNames={"run", "sysev", "despsys"}, MaxOps=3, Budget=4, MaxSteps=2), ["Inv_C11", "Inv_C02", "Inv_C05"]),
+    # "no_discard" (root does not discard leftovers) is an EQUIVALENT mutant of the model: every deferred command is replayed by
+    # the frame of its target, so nothing is ever left at the root; it is kept in Cobweb.tla but not listed here
     ("no_counter_reset", "Mutants", "run", C(NSys=2, OpNames={"run"}, MaxOps=2, Budget=3, MaxSteps=3), ["Inv_C11", "Inv_C02"]),
     ("local_reset", "Mutants", "run", C(NSys=2, OpNames={"run"}, MaxOps=2, Budget=3, MaxSteps=2), ["Inv_C13"]),
     ("cleanup_after_commands", "Mutants", "ev", C(NSys=3, OpNames={"bc", "probe"}, MaxOps=2, Budget=3, MaxSteps=2), ["Inv_C04", "Inv_C05"]),
